@@ -544,6 +544,11 @@ def _as_array(v, node=None):
 def np_array(interp, st, args, kwargs, node):
     v = args[0]
     dtype = kwargs.get("dtype")
+    from .filt import FiltList
+
+    if isinstance(v, FiltList):
+        # np.array(list of selected rows): the same filtered view, as an array
+        return FiltList(v.src, v.keep, as_array=True)
     if isinstance(v, (Arr, Grid)):
         return v
     if isinstance(v, GList):
@@ -1475,6 +1480,47 @@ def _mutate(interp, st, base_node, new, node):
     interp.assign(base_node, new, st)
 
 
+def m_filt_append(interp, st, base, base_node, args, kwargs, node):
+    from . import filt
+
+    new = filt.append(interp, st, base, args[0], node)
+    _mutate(interp, st, base_node, new, node)
+    return None
+
+
+def np_arange(interp, st, args, kwargs, node):
+    I = _I()
+    if len(args) == 1 and not kwargs:
+        return I.SymRange(0, args[0])
+    raise Outside("np.arange with several arguments", node)
+
+
+def np_delete(interp, st, args, kwargs, node):
+    """np.delete(a, idxs, axis=0) where idxs is a filtered view of range(len(a)): the complementary filtered view of a"""
+    from .filt import FiltList, RangeSrc, same_source
+
+    I = _I()
+    a, idxs = args[0], args[1]
+    axis = kwargs.get("axis", args[2] if len(args) > 2 else None)
+    if axis != 0 or not isinstance(idxs, FiltList) or not isinstance(idxs.src, RangeSrc):
+        raise Outside("np.delete other than (array, filtered indices of its own range, axis=0)", node)
+    M = _M()
+    if isinstance(a, I.SymRange):
+        if not (isinstance(a.lo, int) and a.lo == 0):
+            raise Outside("np.delete on a range not starting at 0", node)
+        n = a.hi
+        src = RangeSrc(n)
+    elif isinstance(a, Grid):
+        n = a.dims[0]
+        src = a
+    else:
+        raise Outside(f"np.delete on {type(a).__name__}", node)
+    interp.ctx.oblige(st, M.s_cmp(ast.Eq(), n, idxs.src.n), f"delete-indices-of-this-array@{getattr(node, 'lineno', '?')}", node, "assert")
+    k = z3.Int(V.fresh_name("dk"))
+    keep = z3.Lambda([k], z3.And(k >= 0, k < to_z3(n), z3.Not(z3.Select(idxs.keep, k))))
+    return FiltList(src, keep, as_array=True)
+
+
 def m_list_append(interp, st, base, base_node, args, kwargs, node):
     if isinstance(base, list):
         new = list(base) + [args[0]]
@@ -1620,6 +1666,7 @@ METHODS = {
     ("Arr", "tolist"): m_tolist,
     ("list", "append"): m_list_append,
     ("SymList", "append"): m_list_append,
+    ("FiltList", "append"): m_filt_append,
     ("list", "extend"): m_list_extend,
     ("SymList", "extend"): m_list_extend,
     ("list", "pop"): m_list_pop,
@@ -1637,3 +1684,6 @@ METHODS = {
     ("str", "startswith"): m_str_startswith,
     ("str", "removeprefix"): m_str_removeprefix,
 }
+
+
+LIBFUNCS.update({"np.arange": np_arange, "np.delete": np_delete})
